@@ -157,8 +157,16 @@ class CounterInterval:
                                opaque_bottom)
         return BOTTOM if opaque_bottom and not self.mentions_counter(e) else iv
 
-    def mentions_counter(self, e: ast.AST) -> bool:
-        return any(self.is_counter(x) for x in ast.walk(e))
+    def mentions_counter(self, e: ast.AST, depth: int = 0) -> bool:
+        """Does e (looking through single-definition locals) read the
+        counter?"""
+        for x in ast.walk(e):
+            if self.is_counter(x):
+                return True
+            if isinstance(x, ast.Name) and x.id in self.defs and depth < 6 \
+                    and self.mentions_counter(self.defs[x.id], depth + 1):
+                return True
+        return False
 
     # -- transfer ----------------------------------------------------------------
     def transfer(self, n: Node, iv):
